@@ -127,6 +127,8 @@ def family_sel(tier='quick'):
         out.append(_sel(f'indep-same-node-{k1}x{k2}', ['A'] + o1 + o2, [], ['A'], [('C1', 'A', o1), ('C2', 'A', o2)]))
         out.append(_sel(f'indep-two-nodes-{k1}x{k2}', ['A', 'B', 'X'] + o1 + o2, [('X', 'A'), ('X', 'B')], ['X'],
                         [('C1', 'A', o1), ('C2', 'B', o2)]))
+    out.append(_sel('indep-three-2x2x2', ['A', 'P0', 'P1', 'Q0', 'Q1', 'R0', 'R1'], [], ['A'],
+                    [('C1', 'A', ['P0', 'P1']), ('C2', 'A', ['Q0', 'Q1']), ('C3', 'A', ['R0', 'R1'])]))
     # nested: option of C1 activates C2 (depth 2 and 3)
     out.append(_sel('nested-2', ['A', 'P0', 'P1', 'Q0', 'Q1'], [], ['A'],
                     [('C1', 'A', ['P0', 'P1']), ('C2', 'P1', ['Q0', 'Q1'])]))
